@@ -250,6 +250,7 @@ prop('C09', [
     reord.r_retry,
     handles.r_numbers,
     models.r_json_reordering,
+    models.r_configure,
 ],
     'the retry protocol of _try_to_reorder as a typestate (attempt in '
     'context, requests disabled before reorder(), retry in context, '
@@ -488,6 +489,11 @@ MODEL_TEXT = {
            '`dd.autoref.BDD` shares with `dd.bdd.BDD` interpreted on both '
            'sides from the same manager (about 100 calls, two orders) '
            'and compared.',
+    'C09': ' Models: the wrapper of `_try_to_reorder` in five scenarios; '
+           '`_load_json` against a manager that records `configure` '
+           '(the reordering switch is afterwards what it was, on every '
+           'way out); `BDD.configure` for every listing order of a valid '
+           'and an unknown parameter.',
     'C10': ' Models: `support`, `descendants`, `is_essential` against '
            'reachability; `count` and `pick_iter` against truth tables '
            '(702 calls on three managers).',
@@ -523,6 +529,12 @@ MODEL_TEXT = {
            'small files (levels with gaps, node numbers in no order, '
            'constant roots) against a strict reference manager; '
            '`_parse_header` / `_parse_body` for .varinfo 0, 1, 3.',
+    'C17': ' Models: `BDD.load` on six files the writer does not produce '
+           '(a refused file leaves the manager reduced, consistent, with '
+           'levels 0..n-1 and every live reference unchanged); '
+           '`BDD.configure` (a refused call changes nothing); `_load_json` '
+           'and the reordering switch; the temporary directory of the JSON '
+           'loader and dumper on four ways out.',
     'C18': ' Models: `_to_dot` with `DotGraph` on twelve graphs (arcs, '
            'styles, complement marks, one external reference per root), '
            'and the legend of doc.md against the styles used; `support` / '
